@@ -31,13 +31,17 @@ fn fnv(acc: &mut u64, v: u64) {
 }
 
 fn voxel(k: u32, pool: Option<&ThreadPool>) -> u64 {
+    voxel_sized(k, pool, (7, 6, 8), &[4])
+}
+
+fn voxel_sized(k: u32, pool: Option<&ThreadPool>, size: (u32, u32, u32), tiles: &[usize]) -> u64 {
     let shape = VmShape::from(scene(k));
     let cfg = fidget_raster::voxel::RenderConfig {
-        image_size: VoxelSize::new(7, 6, 8),
+        image_size: VoxelSize::new(size.0, size.1, size.2),
         world_to_model: nalgebra::Matrix4::identity(),
     };
     let ec = fidget_raster::voxel::EvalConfig {
-        tile_sizes: Some(TileSizes::new(&[4]).unwrap()),
+        tile_sizes: Some(TileSizes::new(tiles).unwrap()),
         threads: pool,
         cancel: CancelToken::new(),
     };
@@ -112,8 +116,34 @@ fn main() {
     let mode = std::env::args().nth(1).unwrap_or_else(|| "voxel".into());
     match mode.as_str() {
         "voxel" => {
-            for k in 0..3 {
-                println!("CHECKSUM voxel {k} {:016x}", voxel(k, None));
+            // sizes that are not multiples of the tile size, one-voxel-thin
+            // images and a two-level tile hierarchy: the unchecked index in
+            // the voxel renderer is computed from all of these
+            let cfgs: [((u32, u32, u32), &[usize]); 5] = [
+                ((7, 6, 8), &[4]),
+                ((5, 9, 3), &[4, 2]),
+                ((1, 1, 9), &[2]),
+                ((8, 8, 8), &[8, 4]),
+                ((3, 10, 1), &[4]),
+            ];
+            for (k, (size, tiles)) in cfgs.iter().enumerate() {
+                println!("CHECKSUM voxel{k} {:016x}", voxel_sized(k as u32, None, *size, tiles));
+            }
+            // plus sizes and tile hierarchies drawn from the seed (argv[2])
+            let mut x: u64 = std::env::args().nth(2).and_then(|s| s.parse().ok()).unwrap_or(1);
+            let mut next = |m: u64| {
+                x = x.wrapping_mul(6364136223846793005).wrapping_add(1442695040888963407);
+                (x >> 33) % m
+            };
+            let tile_sets: [&[usize]; 5] = [&[4], &[4, 2], &[8, 4], &[2], &[8, 4, 2]];
+            for k in 0..7 {
+                let size = (1 + next(10) as u32, 1 + next(10) as u32, 1 + next(10) as u32);
+                let tiles = tile_sets[next(5) as usize];
+                println!(
+                    "CHECKSUM voxel_r{k}_{}x{}x{}_t{} {:016x}",
+                    size.0, size.1, size.2, tiles.len(),
+                    voxel_sized(next(3) as u32, None, size, tiles)
+                );
             }
         }
         "sched" => {
@@ -128,6 +158,13 @@ fn main() {
                 }
                 println!("CHECKSUM {name} {a:016x}");
             }
+            // cancel token raw round trip (the only other unsafe in
+            // fidget-core): the token handed back must be the same flag
+            let t = CancelToken::new();
+            let raw = t.clone().into_raw();
+            let u = unsafe { CancelToken::from_raw(raw) };
+            t.cancel();
+            println!("CHECKSUM cancel_roundtrip {:016x}", u.is_cancelled() as u64);
         }
         _ => std::process::exit(2),
     }
